@@ -12,7 +12,7 @@ RULES = {
     'C16.R2': 'named constructors: identity, zeros, constant, unit, zero_idx, sum, subtraction, rotation, scaling, uniform_scaling, translation',
 }
 CONTROL_REV = '078b142'  # thorough tier: the rules must still report the defects found (and since fixed) on the original tree
-CONTROLS = [('C16.R2', 'AffFuncBase::translation')]
+CONTROLS = [('C16.R2', 'AffFuncBase::translation'), ('C16.R2', 'AffFuncBase::subtraction#aliasing')]
 FLOORS = {'C16.R1': 35, 'C16.R2': 12}
 EXPLANATION = ('Each kernel is single-path; its returned value is a polynomial in the operands, and polynomial identities over matrices of all sizes are decidable by '
                'normal-form comparison. Constructor forms (base matrix + point writes) are compared entry-wise with the documented meaning.')
@@ -196,11 +196,35 @@ def constructors(ctx, F):
         'unit': (('zeros', T2(C(1), P('dim'))), [((C(0), P('index')), 'one')], ('zeros', C(1)), [], 'f(x) = x[index]'),
         'zero_idx': (('eye', P('dim')), [((P('index'), P('index')), 'zero')], ('zeros', P('dim')), [], 'x with component index zeroed'),
         'sum': (('ones', T2(C(1), P('dim'))), [], ('zeros', C(1)), [], 'f(x) = sum x'),
-        'subtraction': (('zeros', T2(C(1), P('dim'))), [((C(0), P('left')), 'one'), ((C(0), P('right')), 'negone')], ('zeros', C(1)), [], 'f(x) = x[left] - x[right]'),
+        'subtraction': (('zeros', T2(C(1), P('dim'))), [((C(0), P('left')), 'one'), ((C(0), P('right')), 'negone')], ('zeros', C(1)), [], 'f(x) = x[left] - x[right]'),  # contributions; 'acc-*' writes count as their contribution
         'rotation': (('param', 'rotator'), [], ('zeros', None), [], 'f(x) = R x'),
         'scaling': (('diag', P('scalars')), [], ('zeros', None), [], 'f(x) = diag(s) x'),
         'translation': (('eye', P('dim')), [], ('param', 'offset'), [], 'f(x) = x + offset'),
     }
+
+    def acc_kind(idx, v, base_e):
+        """`m[idx] = m[idx] + c` / `m[idx] - c`: an accumulating write ('acc-one' / 'acc-negone'), else None"""
+        for nm, pos, neg in (('Add::add', 'acc-one', 'acc-negone'), ('Sub::sub', 'acc-negone', 'acc-one')):
+            if is_call(v, nm):
+                a, c = v[2]
+                if nm == 'Add::add' and not is_call(a, 'Index::index'):
+                    a, c = c, a
+                if is_call(a, 'Index::index') and s(a[2][0]) == s(base_e):
+                    ri = a[2][1]
+                    ri = ri[2] if ri[0] == 'agg' and ri[1] == 'array' else (ri,)
+                    if tuple(s(x) for x in ri) == tuple(s(x) for x in idx):
+                        k = val_kind(s(c))
+                        if k == 'one':
+                            return pos
+                        if k == 'negone':
+                            return neg
+        return None
+
+    def may_alias(i1, i2):
+        """index tuples that are not provably different (two different constants in one position)"""
+        if len(i1) != len(i2):
+            return True
+        return not any(a[0] == 'const' and b_[0] == 'const' and a[1] != b_[1] for a, b_ in zip(i1, i2))
 
     def val_kind(v):
         if v == one:
@@ -223,8 +247,24 @@ def constructors(ctx, F):
             m, mwr, bi, bwr = f
             gm = base(m)
             gb = base(bi)
+            # overwriting point writes are the documented sum of contributions only if no later plain write can hit an entry written before
+            cfgb = b.cfg()
+            plain = [(tuple(s(i) for i in idx), bb2, acc_kind(idx, v, m)) for idx, v, bb2 in mwr]
+            if len(plain) > 1:
+                clash = []
+                for (i1, b1, a1) in plain:
+                    for (i2, b2, a2) in plain:
+                        if b1 != b2 and a2 is None and may_alias(i1, i2) and not cfgb.dominates(b2, b1):
+                            clash.append((i1, i2))
+                if clash:
+                    ctx.bad('C16.R2', site + '#aliasing', 'the entry written at [%s] is overwritten (not accumulated) by the later write at [%s]: when the two indices coincide the result is not "%s"'
+                            % (', '.join(fmt(x) for x in clash[0][0]), ', '.join(fmt(x) for x in clash[0][1]), meaning), b.span)
+                else:
+                    ctx.ok('C16.R2', site + '#aliasing', 'point writes with possibly coinciding indices accumulate', b.span)
+            mwr = [(idx, (('const', acc_kind(idx, v, m)) if acc_kind(idx, v, m) else v), bb2) for idx, v, bb2 in mwr]
             gmw = sorted([(tuple(s(i) for i in idx), val_kind(strip_call_site(v))) for idx, v, _ in mwr], key=str)
             gbw = sorted([(tuple(s(i) for i in idx), val_kind(strip_call_site(v))) for idx, v, _ in bwr], key=str)
+            gmw = sorted([(i_, {'acc-one': 'one', 'acc-negone': 'negone'}.get(k, k)) for i_, k in gmw], key=str)
             want_mw = sorted([(tuple(s(i) for i in idx), k) for idx, k in mw], key=str)
             okm = (s(gm) == s(mb)) and gmw == want_mw
             if bb_[0] == 'zeros' and bb_[1] is None:
